@@ -123,7 +123,10 @@ class Shell:
             fullcmd = self.expand_command(cmd)
         except HERAError:
             if "=" in response:
-                self.handle_assign(response.split("=", maxsplit=1))
+                try:
+                    self.handle_assign(response.split("=", maxsplit=1))
+                except RecursionError:
+                    print("Error: expression is too deeply nested.")
             else:
                 print("{} is not a recognized command.".format(cmd))
 
@@ -133,10 +136,13 @@ class Shell:
                 return False
 
             handler = getattr(self, "handle_" + fullcmd)
-            if fullcmd in self.TAKES_ARGSTR:
-                handler(argstr)
-            else:
-                handler(argstr.split())
+            try:
+                if fullcmd in self.TAKES_ARGSTR:
+                    handler(argstr)
+                else:
+                    handler(argstr.split())
+            except RecursionError:
+                print("Error: expression is too deeply nested.")
 
             return True
 
